@@ -47,12 +47,12 @@ struct Doc {
     XalanSourceTreeDOMSupport* stSupport; XalanSourceTreeParserLiaison* stLiaison;
     xercesc::XercesDOMParser* xparser; XercesParserLiaison* xLiaison; XercesDOMSupport* xSupport;
     XalanDocument* doc;
-    Doc() : xerces(false), stSupport(0), stLiaison(0), xparser(0), xLiaison(0), xSupport(0), doc(0) {}
+    // evaluation state shared by all xpath calls on this document (like one transformation):
+    // released XObjects go back to the factory's caches and are recycled by later expressions
+    XPathEnvSupportDefault* env; XObjectFactoryDefault* xof; XPathConstructionContextDefault* cctx; void* ectx;
+    Doc() : xerces(false), stSupport(0), stLiaison(0), xparser(0), xLiaison(0), xSupport(0), doc(0), env(0), xof(0), cctx(0), ectx(0) {}
     DOMSupport& support() { return xerces ? (DOMSupport&)*xSupport : (DOMSupport&)*stSupport; }
-    void destroy() {
-        delete stLiaison; delete stSupport;
-        delete xSupport; delete xLiaison; delete xparser;
-    }
+    void destroy();
 };
 
 static std::map<long, Doc> g_docs;
@@ -142,6 +142,23 @@ public:
         return XPathExecutionContextDefault::getVariable(name, locator);
     }
 };
+
+inline void Doc::destroy() {
+    delete static_cast<VarCtx*>(ectx); delete xof; delete cctx; delete env;
+    delete stLiaison; delete stSupport;
+    delete xSupport; delete xLiaison; delete xparser;
+}
+
+inline VarCtx& evalState(Doc& d) {
+    MemoryManager& mm = XalanMemMgrs::getDefaultXercesMemMgr();
+    if (!d.ectx) {
+        d.env = new XPathEnvSupportDefault(mm);
+        d.xof = new XObjectFactoryDefault(mm);
+        d.cctx = new XPathConstructionContextDefault(mm);
+        d.ectx = new VarCtx(*d.env, d.support(), *d.xof);
+    }
+    return *static_cast<VarCtx*>(d.ectx);
+}
 
 class Chars : public FormatterListener {
 public:
@@ -270,10 +287,10 @@ inline void cmdXpath(const Msg& q, Msg& r) {
     if (di == g_docs.end()) { r["error"] = "no such doc"; return; }
     Doc& d = di->second;
     MemoryManager& mm = XalanMemMgrs::getDefaultXercesMemMgr();
-    XPathEnvSupportDefault env(mm);
-    XObjectFactoryDefault xof(mm);
-    XPathConstructionContextDefault cctx(mm);
-    VarCtx ectx(env, d.support(), xof);
+    VarCtx& ectx = evalState(d);
+    XObjectFactoryDefault& xof = *d.xof;
+    XPathConstructionContextDefault& cctx = *d.cctx;
+    if (geti(q, "fresh")) { ectx.reset(); xof.reset(); cctx.reset(); }
     MapResolver res; res.load(get(q, "ns"));
     XalanNode* ctxNode = nodeAt(d.doc, get(q, "ctx", "/"));
     if (!ctxNode) { r["error"] = "no such context node"; return; }
